@@ -27,13 +27,13 @@ from .. import tlc
 PID = "C16"
 
 INVARIANTS = ["TypeOK", "StrongExactly", "NoHashWhileMissing", "HashWhenComplete", "FuzzyIgnoresProducedContent",
-              "FuzzyFollowsProducer", "FuzzyExactly", "BaseComplete", "SiblingExactly"]
+              "FuzzyFollowsProducer", "FuzzyExactly", "BaseComplete", "SiblingExactly", "NoFuzzyWhileUpstreamInputMissing"]
 ACTIONS = ["ChangeExecutable", "ChangeLiteral", "ChangeOwnContent", "ChangeOwnMethod", "ChangeProducedContent",
            "ChangeUpMethod", "ChangeImage", "LiteralViaVariable", "ExecutableViaVariable", "RenameOwnFile", "RenameProducedFile",
            "RespellReference", "ChangeBackendOnly", "ChangeResources", "ChangeEnvironment", "MoveInstance",
            "RenameComponents", "RenameStages", "ShiftStages", "ChangeTime", "Replicate", "Identity",
            "ChangeSiblingExecutable", "ChangeSiblingLiteral",
-           "RemoveOwnFile", "RemoveProducedFile"]
+           "RemoveOwnFile", "RemoveProducedFile", "FlickerOwnFile"]
 
 # how the opaque values of the spec are rendered
 NAMES = {"plain": ("cons", "prod", "src"), "renamed": ("xx", "yy", "zz"),
@@ -225,6 +225,8 @@ class Built:
         n = w["n"]
         inputs, extra = [], {}
         self.own_paths = {}
+        self.flicker_path = None
+        self.flickered = None
         for i in range(1, n + 1):
             own = w["c"][i - 1]["own"]
             if own["kind"] == "none":
@@ -273,6 +275,8 @@ class Built:
                 os.utime(p, (t, t))
                 if not own["present"]:
                     os.remove(os.path.realpath(p))
+                if w.get("flicker") == i:
+                    self.flicker_path = os.path.realpath(p)
             up = c["up"]
             if i < n and up["kind"] == "pfile" and up["present"]:
                 for nd in self.nodes[i + 1]:
@@ -282,15 +286,35 @@ class Built:
                         f.write(content_bytes(up["content"]))
                     os.utime(p, (t, t))
 
-    def hashes(self, i):
+    def hashes(self, i, reset=True):
         out = []
         for nd in self.nodes[i]:
             spec = self.exp.graph.nodes[nd]["componentSpecification"]
-            spec.memoization_reset()
+            if reset:
+                spec.memoization_reset()
             out.append((spec.memoization_hash, spec.memoization_hash_fuzzy))
         return out
 
+    def flicker(self):
+        """the file disappears, every hash is asked for (consumers first, as a controller polling its components would), the file
+        comes back with the same bytes; from here on nobody calls memoization_reset()"""
+        with open(self.flicker_path, "rb") as f:
+            data = f.read()
+        st = os.stat(self.flicker_path)
+        os.remove(self.flicker_path)
+        self.flickered = {i: self.hashes(i, reset=False) for i in range(1, self.w["n"] + 1)}
+        with open(self.flicker_path, "wb") as f:
+            f.write(data)
+        os.utime(self.flicker_path, (st.st_atime, st.st_mtime))
+
     def all_hashes(self):
+        if self.flicker_path:
+            self.flicker()
+            out = {i: self.hashes(i, reset=False) for i in range(1, self.w["n"] + 1)}
+            if self.sibnode:
+                spec = self.exp.graph.nodes[self.sibnode]["componentSpecification"]
+                out["sib"] = [(spec.memoization_hash, spec.memoization_hash_fuzzy)]
+            return out
         # producers first: the fuzzy hash of a consumer asks its producer
         for i in range(self.w["n"], 0, -1):
             for nd in self.nodes[i]:
